@@ -11,6 +11,11 @@ and deallocation outside `#[cfg(test)]` code, in source order, as
 (enclosing fn, operation, memory-ordering arguments).  The models pin these
 lists (`…_ops_pinned` lemmas), so adding, removing or re-ordering an atomic
 operation — or changing a memory ordering — stops a proof from compiling.
+For mutex.rs additionally `futex_calls`: every call of the futex / ulock wrappers
+and of the raw `syscall`, with the complete list of argument expressions (the op
+constant with any flags OR-ed in, the address, the value, the timeout), pinned by
+`futex_calls_pinned`: the model's futex stands for a process-SHARED futex on the
+key word, so e.g. adding FUTEX_PRIVATE_FLAG must break the proof build.
 Lines under `#[cfg(aranya_core_verif)]` (the hooks) are removed first.
 """
 import re
@@ -117,6 +122,58 @@ def _coq_ledger(name, led):
     return "Definition %s : list (string * string * string) :=\n  [%s].\n" % (name, body)
 
 
+SYS_CALLEES = ["syscall", "futex", "futex_wait", "futex_wake", "__ulock_wait", "__ulock_wake"]
+
+
+def _split_args(args):
+    out, depth, cur = [], 0, []
+    for c in args:
+        if c in "([{<":
+            depth += 1
+        elif c in ")]}>":
+            depth -= 1
+        if c == "," and depth == 0:
+            out.append("".join(cur))
+            cur = []
+        else:
+            cur.append(c)
+    if "".join(cur).strip():
+        out.append("".join(cur))
+    return [re.sub(r"\s+", "", a) for a in out]
+
+
+def _sys_calls(src):
+    """[(enclosing fn, callee, [argument expressions, whitespace removed])] for every call of
+    the futex / ulock wrappers and the raw syscall, in source order (definitions excluded)."""
+    fns = [(m.start(), m.group(1)) for m in re.finditer(r"\bfn\s+([A-Za-z_][A-Za-z0-9_]*)", src)]
+    pat = re.compile(r"(?<![A-Za-z0-9_])(%s)\s*\(" % "|".join(re.escape(c) for c in SYS_CALLEES))
+    out = []
+    for m in pat.finditer(src):
+        pre = src[max(0, m.start() - 12):m.start()]
+        if re.search(r"\bfn\s+$", pre):
+            continue
+        k = m.end()
+        depth = 1
+        while k < len(src) and depth:
+            if src[k] == "(":
+                depth += 1
+            elif src[k] == ")":
+                depth -= 1
+            k += 1
+        fn = "?"
+        for (pos, name) in fns:
+            if pos < m.start():
+                fn = name
+        out.append((fn, m.group(1), _split_args(src[m.end():k - 1])))
+    return out
+
+
+def _coq_calls(name, calls):
+    body = ";\n   ".join("(%s, %s, [%s])" % (_coq_str(a), _coq_str(b), "; ".join(_coq_str(x) for x in c))
+                         for (a, b, c) in calls)
+    return "Definition %s : list (string * string * list string) :=\n  [%s].\n" % (name, body)
+
+
 @gen.generator
 def gen_conc(repo):
     probs = []
@@ -131,6 +188,24 @@ def gen_conc(repo):
         kind = "nat" if cname == "PASSIVE_SPIN" else "N"
         out.append("Definition %s : %s := %s%%%s.\n" % (cname.lower(), kind, v.replace("_", ""), kind))
     out.append(_coq_ledger("mutex_ops", _ledger(m_src)))
+    # every futex / ulock system-call site with its full argument list, the libc names the
+    # Linux module imports (a renamed import would change what FUTEX_WAIT means) and the
+    # ulock operation constants
+    out.append(_coq_calls("futex_calls", _sys_calls(m_src)))
+    lm = re.search(r"\bmod\s+linux\s*\{", m_src)
+    imports = []
+    if lm:
+        im = re.search(r"use\s+libc\s*::\s*\{([^}]*)\}\s*;", m_src[lm.end():])
+        if im:
+            imports = sorted(re.sub(r"\s+", " ", x).strip() for x in im.group(1).split(",") if x.strip())
+    if not imports:
+        probs.append("gen_conc: `use libc::{…}` of mod linux not found in mutex.rs")
+    out.append("Definition futex_libc_imports : list string := [%s].\n" % "; ".join(_coq_str(x) for x in imports))
+    consts = []
+    for cname in ("UL_COMPARE_AND_WAIT", "ULF_NO_ERRNO"):
+        v = gen.find_const(m_src, cname)
+        consts.append("%s=%s" % (cname, re.sub(r"\s+", "", v or "?")))
+    out.append("Definition ulock_consts : list string := [%s].\n" % "; ".join(_coq_str(x) for x in consts))
     # ---- lender.rs
     l_src = _prep(repo, "crates/aranya-fast-channels/src/memory/lender.rs")
     for cname in ("STATE_UNSHARED", "STATE_SHARED"):
